@@ -14,8 +14,9 @@ PER_SHARD = 8
 LEVEL_TEXT = ("Coq theorems over all histories of resolve_hostname / stop_resolve_hostname calls and delivered "
               "responses (any names, letter cases, address sets, TTLs, goodbyes, cache-flush, timeouts, iteration "
               "times): the model of the daemon's hostname resolution satisfies chk_C17 (AddressesFound content, "
-              "AddressesRemoved on expiry, A+AAAA query schedule 1,2,4,..3600 s, one refresh at 80 %, SearchTimeout "
-              "then SearchStopped at the deadline); the model is tied to the real daemon thread in the simulated "
+              "AddressesRemoved on expiry and after a goodbye (1 s), A+AAAA question at once and then on the schedule "
+              "1,2,4,..3600 s, every due record of an open search refreshed once at 80 % in the iteration in which it is due, "
+              "SearchTimeout then SearchStopped at the deadline); the model is tied to the real daemon thread in the simulated "
               "world (events with virtual timestamps and A/AAAA questions compared per iteration) and chk_C17 runs "
               "as monitor on the implementation's traces")
 TECHNIQUE = ("machine-checked proof in Coq (invariants over arbitrary histories, simulation under case renaming) "
